@@ -348,6 +348,9 @@ def R5_collect_protocol_fees(run):
         run.touch(h)
         tx = calls_to(h, ends(xfer))
         rs = calls_to(h, ends("Whirlpool::reset_protocol_fees_owed"))
+        if not rs:
+            # the reset written in place: the same two zero stores (recognised by what reset_protocol_fees_owed itself stores)
+            rs = [(mb, {"l": ws_[-1]["line"]}, [recv]) for (mp_, mb, recv, _a, ws_) in writes.recognise_mutators(facts, h) if mp_ == W + "::reset_protocol_fees_owed"]
         ok = len(tx) == 2 and len(rs) == 1
         sides = set()
         if ok:
